@@ -56,6 +56,7 @@ func c01Digest(rel string, names ...string) {
 }
 
 func genC01() {
+	runGen("c01guards", genC01Guards)
 	c01Digest("syncer/output.go", "parseAofCommand", "sendCmdsBatch", "sendAof", "selectDB", "StartPoint",
 		"checkpoint", "buildSelectCmdExecution")
 	c01Digest("syncer/transaction.go", "transactionStatus")
